@@ -324,4 +324,177 @@ theorem unknownMul_new_later (B : Nat) (hB : B ≤ U64_MAX) (l : List Val) (s0 :
         rw [h6, hb, hs]
         exact ih (r ++ [b.length]) hov'
 
+theorem unknownMul_new_walk (B : Nat) (hB : B ≤ U64_MAX) (l : List Val) (x : Nat)
+    (hov : totalLen l * totalLen l ≤ U64_MAX) :
+    unknownMul true B 16 l (mulBase true []) x true
+      = (Unknown.walk 2 true B [] (sizesOf l)).map (mulBase true) := by
+  cases l with
+  | nil => simp [unknownMul_nil, sizesOf, Unknown.walk, Except.map]
+  | cons a t =>
+    cases a with
+    | pair x y => simp [unknownMul_cons, sizesOf, sizeOf, Unknown.walk, Except.map, atomLen_pair]
+    | atom b tg =>
+      have hc : checkedAfter 2 true [b.length] = true := by simp [checkedAfter]
+      have hm : mulBase true [b.length] = 2000 + b.length * 6 := by simp [mulBase, mulSteps]; omega
+      have hlater := unknownMul_new_later B hB t b.length []
+        (by simpa [Unknown.sum, totalLen_cons_atom] using hov)
+      simp only [unknownMul_cons, sizesOf, List.map_cons, sizeOf, Unknown.walk, atomLen_atom, if_true,
+        List.nil_append, hc, base, Bool.true_and, decide_eq_true_eq, Gen.MUL_LINEAR_COST_PER_BYTE,
+        ckAdd, ckMul, checkCost, gt_iff_lt]
+      have hm0 : mulBase true [] = 2000 := by simp [mulBase]
+      rw [hm0]
+      by_cases h : mulBase true [b.length] > B
+      · simp only [h, if_true, Except.map]
+        by_cases h1 : U64_MAX < b.length * 6
+        · simp [h1]
+        · by_cases h2 : U64_MAX < 2000 + b.length * 6
+          · simp [h1, h2]
+          · have h3 : B < 2000 + b.length * 6 := by omega
+            simp [h1, h2, h3]
+      · have h1 : ¬ U64_MAX < b.length * 6 := by omega
+        have h2 : ¬ U64_MAX < 2000 + b.length * 6 := by omega
+        have h3 : ¬ B < 2000 + b.length * 6 := by omega
+        simp only [h, h1, h2, h3, if_false]
+        rw [← hm]
+        simpa [Unknown.sum, sizesOf] using hlater
+
+/-! ### relational form for the new-model multiply-like loop (no size hypothesis): either both sides
+agree, or both fail, or the model fails on a 64-bit overflow while the documented base is ≥ 2^32
+(so the documented rule fails as well, after the walk) -/
+
+def MulRel (impl : Except Err Nat) (spec : Except Err (List Nat)) : Prop :=
+  match impl, spec with
+  | .ok c, .ok ss => c = mulBase true ss
+  | .error _, .error _ => True
+  | .ok _, .error _ => False
+  | .error _, .ok ss => 2 ^ 32 ≤ mulBase true ss
+
+theorem MulRel_of_eq (impl : Except Err Nat) (spec : Except Err (List Nat))
+    (h : impl = spec.map (mulBase true)) : MulRel impl spec := by
+  subst h
+  cases spec <;> simp [MulRel, Except.map]
+
+theorem walk_ok_prefix (cf : Nat) (nm : Bool) (B : Nat) (ss : List (Option Nat)) (seen r : List Nat)
+    (h : Unknown.walk cf nm B seen ss = .ok r) : ∃ more, r = seen ++ more := by
+  induction ss generalizing seen with
+  | nil => simp only [Unknown.walk] at h; injection h with h; exact ⟨[], by simp [h]⟩
+  | cons a t ih =>
+    cases a with
+    | none => simp [Unknown.walk] at h
+    | some s =>
+      simp only [Unknown.walk] at h
+      split at h
+      · cases h
+      · obtain ⟨more, hm⟩ := ih _ h
+        exact ⟨s :: more, by simp [hm]⟩
+
+theorem mulSteps_append (D L : Nat) (a b : List Nat) :
+    mulSteps D L (a ++ b) = mulSteps D L a + mulSteps D (L + Unknown.sum a) b := by
+  induction a generalizing L with
+  | nil => simp [mulSteps, Unknown.sum]
+  | cons x t ih =>
+    simp only [List.cons_append, mulSteps, ih, sum_cons]
+    rw [show L + x + Unknown.sum t = L + (x + Unknown.sum t) by omega]; omega
+
+theorem mulBase_mono (s0 : Nat) (r more : List Nat) :
+    mulBase true (s0 :: r) ≤ mulBase true ((s0 :: r) ++ more) := by
+  simp only [List.cons_append, mulBase, if_true, mulSteps_append]; omega
+
+set_option maxRecDepth 4000 in
+theorem unknownMul_new_later_rel (B : Nat) (hB : B ≤ U64_MAX) (l : List Val) (s0 : Nat) (r : List Nat) :
+    MulRel (unknownMul true B 16 l (mulBase true (s0 :: r)) (Unknown.sum (s0 :: r)) false)
+      (Unknown.walk 2 true B (s0 :: r) (sizesOf l)) := by
+  induction l generalizing r with
+  | nil => simp [unknownMul_nil, sizesOf, Unknown.walk, MulRel]
+  | cons a t ih =>
+    cases a with
+    | pair x y => simp [unknownMul_cons, sizesOf, sizeOf, Unknown.walk, MulRel, atomLen_pair]
+    | atom b tg =>
+      generalize hL : Unknown.sum (s0 :: r) = L
+      generalize hC : mulBase true (s0 :: r) = C
+      have hb : C + 885 + 6 * (L + b.length) + L * b.length / 16
+          = mulBase true (s0 :: (r ++ [b.length])) := by
+        rw [mulBase_snoc_cons, hL, hC]; simp
+      have hc : checkedAfter 2 true (s0 :: (r ++ [b.length])) = true := by
+        simp [checkedAfter]
+      have hs : L + b.length = Unknown.sum (s0 :: (r ++ [b.length])) := by
+        rw [← hL]; simp only [sum_cons, sum_snoc]; omega
+      simp only [unknownMul_cons, sizesOf, List.map_cons, sizeOf, Unknown.walk, atomLen_atom,
+        List.cons_append, if_true, Bool.false_eq_true, if_false, hc, base, Bool.true_and, decide_eq_true_eq,
+        Gen.MUL_COST_PER_OP, Gen.MUL_LINEAR_COST_PER_BYTE]
+      obtain ⟨P, hPd⟩ : ∃ P, L * b.length = P := ⟨_, rfl⟩
+      rw [hPd] at hb
+      simp only [ckAdd, ckMul, gt_iff_lt]
+      rw [hPd, ← hb]
+      by_cases h : C + 885 + 6 * (L + b.length) + P / 16 > B
+      · simp only [h, if_true]
+        by_cases h1 : U64_MAX < C + 885
+        · simp [h1, MulRel]
+        · by_cases h0 : U64_MAX < L + b.length
+          · simp [h1, h0, MulRel]
+          · by_cases h2 : U64_MAX < (L + b.length) * 6
+            · simp [h1, h0, h2, MulRel]
+            · by_cases h3 : U64_MAX < C + 885 + (L + b.length) * 6
+              · simp [h1, h0, h2, h3, MulRel]
+              · by_cases hP' : U64_MAX < P
+                · simp [h1, h0, h2, h3, hP', MulRel]
+                · by_cases h4 : U64_MAX < C + 885 + (L + b.length) * 6 + P / 16
+                  · simp [h1, h0, h2, h3, hP', h4, MulRel]
+                  · have h5 : B < C + 885 + (L + b.length) * 6 + P / 16 := by omega
+                    simp [checkCost, h1, h0, h2, h3, hP', h4, h5, MulRel]
+      · have h1 : ¬ U64_MAX < C + 885 := by omega
+        have h0 : ¬ U64_MAX < L + b.length := by omega
+        have h2 : ¬ U64_MAX < (L + b.length) * 6 := by omega
+        have h3 : ¬ U64_MAX < C + 885 + (L + b.length) * 6 := by omega
+        by_cases hP' : U64_MAX < P
+        · -- 64-bit overflow of l0*len although the documented running base fits the budget
+          simp only [h1, h0, h2, h3, hP', h, if_false, if_true]
+          cases hw : Unknown.walk 2 true B (s0 :: (r ++ [b.length])) (List.map sizeOf t) with
+          | error e => simp [MulRel]
+          | ok ss =>
+            obtain ⟨more, hm⟩ := walk_ok_prefix _ _ _ _ _ _ hw
+            have hmono := mulBase_mono s0 (r ++ [b.length]) more
+            rw [← hm, ← hb] at hmono
+            simp only [MulRel]
+            have : 2 ^ 64 ≤ P + 1 := by simp only [U64_MAX] at hP'; omega
+            omega
+        · have h4 : ¬ U64_MAX < C + 885 + (L + b.length) * 6 + P / 16 := by omega
+          have h5 : ¬ B < C + 885 + (L + b.length) * 6 + P / 16 := by omega
+          have h6 : C + 885 + (L + b.length) * 6 + P / 16 = C + 885 + 6 * (L + b.length) + P / 16 := by omega
+          simp only [checkCost, h1, h0, h2, h3, hP', h4, h5, h, if_false, gt_iff_lt]
+          rw [h6, hb, hs]
+          exact ih (r ++ [b.length])
+
+theorem unknownMul_new_rel (B : Nat) (hB : B ≤ U64_MAX) (l : List Val) (x : Nat) :
+    MulRel (unknownMul true B 16 l (mulBase true []) x true)
+      (Unknown.walk 2 true B [] (sizesOf l)) := by
+  cases l with
+  | nil => simp [unknownMul_nil, sizesOf, Unknown.walk, MulRel]
+  | cons a t =>
+    cases a with
+    | pair x y => simp [unknownMul_cons, sizesOf, sizeOf, Unknown.walk, MulRel, atomLen_pair]
+    | atom b tg =>
+      have hc : checkedAfter 2 true [b.length] = true := by simp [checkedAfter]
+      have hm : mulBase true [b.length] = 2000 + b.length * 6 := by simp [mulBase, mulSteps]; omega
+      have hlater := unknownMul_new_later_rel B hB t b.length []
+      simp only [unknownMul_cons, sizesOf, List.map_cons, sizeOf, Unknown.walk, atomLen_atom, if_true,
+        List.nil_append, hc, base, Bool.true_and, decide_eq_true_eq, Gen.MUL_LINEAR_COST_PER_BYTE,
+        ckAdd, ckMul, checkCost, gt_iff_lt]
+      have hm0 : mulBase true [] = 2000 := by simp [mulBase]
+      rw [hm0]
+      by_cases h : mulBase true [b.length] > B
+      · simp only [h, if_true]
+        by_cases h1 : U64_MAX < b.length * 6
+        · simp [h1, MulRel]
+        · by_cases h2 : U64_MAX < 2000 + b.length * 6
+          · simp [h1, h2, MulRel]
+          · have h3 : B < 2000 + b.length * 6 := by omega
+            simp [h1, h2, h3, MulRel]
+      · have h1 : ¬ U64_MAX < b.length * 6 := by omega
+        have h2 : ¬ U64_MAX < 2000 + b.length * 6 := by omega
+        have h3 : ¬ B < 2000 + b.length * 6 := by omega
+        simp only [h, h1, h2, h3, if_false]
+        rw [← hm]
+        simpa [Unknown.sum, sizesOf] using hlater
+
 end Clvm.Interp
